@@ -21,6 +21,7 @@ import (
 	corev1 "k8s.io/api/core/v1"
 	metav1 "k8s.io/apimachinery/pkg/apis/meta/v1"
 	"k8s.io/apimachinery/pkg/apis/meta/v1/unstructured"
+	"k8s.io/client-go/tools/cache"
 
 	"github.com/flant/kube-client/fake"
 	kem "github.com/flant/shell-operator/pkg/kube_events_manager"
@@ -221,7 +222,8 @@ func replayNsCase(n int, c Case, ms *metricstorage.MetricStorage) Result {
 		return bad(0, "DIV/setup", err.Error())
 	}
 	stale := map[string]bool{} // informers started for a namespace that had stopped matching between AddMonitor and StartMonitor
-	skipHandleNs := 0          // namespace events produced by the namespace informer's own start list: the real informer handles them by itself
+	divStep, divSig, divDetail := 0, "", ""
+	skipHandleNs := 0 // namespace events produced by the namespace informer's own start list: the real informer handles them by itself
 	for i := 1; i < len(c.Steps); i++ {
 		st := c.Steps[i]
 		a := st["act"].([]interface{})
@@ -302,7 +304,11 @@ func replayNsCase(n int, c Case, ms *metricstorage.MetricStorage) Result {
 					break
 				}
 				if time.Now().After(deadline) {
-					return bad(i, "DIV/namespace-informer", fmt.Sprintf("the monitor has informers for %v, the namespaces matching at the start are %v", w.vm.Namespaces(), want))
+					// not a verdict by itself: the quiet-point oracle below says what a hook would see
+					if divSig == "" {
+						divStep, divSig, divDetail = i, "DIV/namespace-informer", fmt.Sprintf("the monitor has informers for %v, the namespaces matching at the start are %v", w.vm.Namespaces(), want)
+					}
+					break
 				}
 				time.Sleep(300 * time.Microsecond)
 			}
@@ -320,7 +326,12 @@ func replayNsCase(n int, c Case, ms *metricstorage.MetricStorage) Result {
 			if kind == "add" {
 				w.vm.NsAdd(nsObject(ns))
 			} else {
-				w.vm.NsDelete(nsObject(ns))
+				if i%2 == 1 {
+					// a deletion learned from a re-list arrives as a tombstone
+					w.vm.NsDelete(cache.DeletedFinalStateUnknown{Key: ns, Obj: nsObject(ns)})
+				} else {
+					w.vm.NsDelete(nsObject(ns))
+				}
 				delete(stale, ns)
 			}
 			after := w.vm.Namespaces()
@@ -408,6 +419,9 @@ func replayNsCase(n int, c Case, ms *metricstorage.MetricStorage) Result {
 			}
 			return bad(i, "C02/snapshot-differs-from-cluster", fmt.Sprintf("snapshot %v, matching objects of the cluster %v (quiet after %v)", got, cluster, a))
 		}
+		if divSig != "" {
+			continue
+		}
 		if !reflect.DeepEqual(got, want) {
 			return bad(i, "DIV/cache", fmt.Sprintf("snapshot %v, specification %v", got, want))
 		}
@@ -416,6 +430,9 @@ func replayNsCase(n int, c Case, ms *metricstorage.MetricStorage) Result {
 		if len(have) != len(known) {
 			return bad(i, "DIV/known-namespaces", fmt.Sprintf("the monitor has informers for %v, specification %v", have, st["known"]))
 		}
+	}
+	if divSig != "" {
+		return bad(divStep, divSig, divDetail)
 	}
 	return res
 }
